@@ -21,7 +21,7 @@ ASSUMPTIONS = [
 ]
 MONITORS = "closure(dest) evaluated at every intermediate destination state via FaultyFS.after_put / audit hook, plus end-state and retry checks"
 REQUIRED_COUNTERS = [
-    "scenarios_with_verify", "missing_on_both_sides_rounds", "wide_directory_scenarios", "dir_read_fault_rounds", "dir_listing_reads_failed", "source_index_rounds", "index_history_rounds", "source_vanish_rounds", "rounds", "states_observed", "rounds_with_failures", "shared_file_failure_rounds", "retries", "rounds_with_index",
+    "scenarios_destination_of_other_md5_flavour", "missing_on_both_sides_rounds_with_repairing_status_hook", "scenarios_with_verify", "missing_on_both_sides_rounds", "wide_directory_scenarios", "dir_read_fault_rounds", "dir_listing_reads_failed", "source_index_rounds", "index_history_rounds", "source_vanish_rounds", "rounds", "states_observed", "rounds_with_failures", "shared_file_failure_rounds", "retries", "rounds_with_index",
     "dirs_withheld", "exhaustive_scenarios", "crash_children",
 ]
 EXHAUSTIVE = {"quick": False, "thorough": False}
@@ -55,6 +55,11 @@ def run_shard(ctx):
             verify_opt = {"verify": True} if rng.random() < 0.3 else {}
             if verify_opt:
                 res.count("scenarios_with_verify")
+            if not wide and rng.random() < 0.12:
+                # the destination is a store of the other md5 flavour (its configured hash name differs from the source's)
+                sc.dest_cfg = {"hash_name": "md5-dos2unix"}
+                sc.dest = sc._mk_dest()
+                res.count("scenarios_destination_of_other_md5_flavour")
             ids, shallow, denoted = sc.closed_request(expanded)
             dirs = {t["oid"]: t for t in sc.trees}
             file_oids = sorted(sc.file_oids())
@@ -252,8 +257,18 @@ def run_shard(ctx):
                         probs, _n = closure_of(sc)
                         viol6.extend(probs)
 
+                    hook6 = {}
+                    if rng.random() < 0.4:
+                        # the caller's status hook reacts to what is reported missing by repairing the source (it fetches the object
+                        # from a backup): whether or not the transfer takes notice, no directory may arrive without that file
+                        def repair_source(_status, keepf=keepf, gone_f=gone_f):
+                            if os.path.exists(keepf):
+                                os.replace(keepf, sc.src_path(gone_f))
+
+                        hook6 = {"validate_status": repair_source}
+                        res.count("missing_on_both_sides_rounds_with_repairing_status_hook")
                     with UploadFaults(sc, frozenset(), on_state6) as uf6:
-                        r6 = _transfer(sc, ids, shallow, jobs, None, **verify_opt)
+                        r6 = _transfer(sc, ids, shallow, jobs, None, **verify_opt, **hook6)
                     res.count("states_observed", uf6.states)
                     endp6, _n = closure_of(sc)
                     res.nontrivial(scen_sig, "missing-both", gone_f, pre_deliver)
@@ -263,7 +278,8 @@ def run_shard(ctx):
                                       f"{bad[0]} uploaded although {bad[1][:2]} exists neither in the source nor in the destination"
                                       + (" (all its other files had been delivered before)" if pre_deliver else ""), case=case,
                                       detail={"missing": gone_f, "dest": sc.dest_kind, "expanded": expanded, "pre_delivered": pre_deliver})
-                    os.replace(keepf, sc.src_path(gone_f))
+                    if os.path.exists(keepf):
+                        os.replace(keepf, sc.src_path(gone_f))
 
             # ---- a history sharing one destination index: push A, the remote loses A (and A's files), push B which shares a file with A
             pairs = [(a, b) for a in sc.trees for b in sc.trees if a is not b and set(a["listing"].values()) & set(b["listing"].values())]
